@@ -2,8 +2,15 @@ package main
 
 import (
 	"fmt"
+	"net/http/httptest"
+	"net/url"
 	"sort"
 	"strings"
+	"time"
+
+	"github.com/gorilla/mux"
+	"github.com/trustbloc/sidetree-core-go/pkg/document"
+	restdochandler "github.com/trustbloc/sidetree-core-go/pkg/restapi/dochandler"
 
 	"github.com/trustbloc/sidetree-core-go/pkg/api/operation"
 
@@ -292,6 +299,26 @@ func runC04(c *ctx) error {
 				}
 			}
 		}
+		// the same handler before and after the deactivation: nothing it remembers may keep a DID open
+		if ocB.Deact && base >= 2 && pub[base-1].Op.Spec.Type == operation.TypeDeactivate {
+			before := pub[:base-1]
+			sess := world.NewIntakeSession(env.pc, before)
+			for phase, store := range [][]world.Placed{before, pub[:base]} {
+				sess.SetStore(store)
+				for j, e := range ext {
+					if e.Op.Spec.Type == operation.TypeCreate || e.Op.Request == nil {
+						continue
+					}
+					res := sess.Submit(e.Op)
+					r.Add(gd, world.DecorateCaseGallina(env.tb, env.md, store, res), map[string]interface{}{"kind": "decorate-session", "phase": phase, "events": labels(full), "op": e.Label, "result": res},
+						fmt.Sprint("s", i, phase, j), true)
+					r.Count("decorator_session", fmt.Sprint("phase", phase, ":", res))
+					if phase == 1 && (res == "accepted" || strings.HasPrefix(res, "panic")) {
+						r.Direct = append(r.Direct, out.Direct{Oracle: "decorator_refuses_after_deactivate", What: "same handler, after the deactivation was anchored: " + res, Case: desc})
+					}
+				}
+			}
+		}
 		// recover supersedes: document content must come from the last applied recover onwards
 		if last := lastRecoverIndex(pub[:base], evs); last >= 0 && !ocB.Deact {
 			recN++
@@ -346,6 +373,12 @@ func runC06(c *ctx) error {
 		for _, t := range ts {
 			tt := t
 			hv := &world.History{Level: 0, Pub: pubS, Unpub: unpub, VersionTime: &tt}
+			// the same instant written with a zone offset (every third cut)
+			if cuts%3 == 1 {
+				hv.VersionTimeOffset = []int{7200, -19800, 3600, -3600, 45900}[cuts%5]
+			}
+			r.Count("version_time_spelling", fmt.Sprint(hv.VersionTimeOffset))
+			restCheck(r, "", hv.VersionTimeText())
 			ocV := hv.Run(env.pc, env.tb, oidOf)
 			var tp, tu []world.Placed
 			for _, p := range pubS {
@@ -389,6 +422,11 @@ func runC06(c *ctx) error {
 				tp = sorted[:k+1]
 			}
 			hv := &world.History{Level: 0, Pub: pubS, Unpub: unpub, VersionID: vid}
+			restCheck(r, world.CRefString(vid), "")
+			if k == 0 {
+				restCheck(r, world.CRefString(vid), "2020-01-01T00:00:00Z")
+				restCheck(r, "", "")
+			}
 			ocV := hv.Run(env.pc, env.tb, oidOf)
 			cuts++
 			desc := descHistory(hv, evs, ocV)
@@ -502,4 +540,55 @@ func runC12(c *ctx) error {
 	}
 	world.IntakeRecommitCases(r, gi, env.kp, c.tier == "thorough")
 	return r.Finish(250)
+}
+
+// ---- REST layer: the query parameters of the resolve endpoint must reach the resolver unchanged ----
+
+type recResolver struct {
+	id   string
+	opts document.ResolutionOptions
+	hit  bool
+}
+
+func (rr *recResolver) ResolveDocument(id string, opts ...document.ResolutionOption) (*document.ResolutionResult, error) {
+	rr.id, rr.hit = id, true
+	rr.opts, _ = document.GetResolutionOptions(opts...)
+	return &document.ResolutionResult{Document: document.Document{"id": id}}, nil
+}
+
+type noHTTPMetrics struct{}
+
+func (noHTTPMetrics) HTTPResolveTime(time.Duration) {}
+
+func restCheck(r *out.Run, versionID, versionTime string) {
+	rr := &recResolver{}
+	h := restdochandler.NewResolveHandler(rr, noHTTPMetrics{})
+	q := url.Values{}
+	if versionID != "" {
+		q.Set("versionId", versionID)
+	}
+	if versionTime != "" {
+		q.Set("versionTime", versionTime)
+	}
+	req := httptest.NewRequest("GET", "/identifiers/did:sidetree:abc?"+q.Encode(), nil)
+	req = mux.SetURLVars(req, map[string]string{"id": "did:sidetree:abc"})
+	rec := httptest.NewRecorder()
+	h.Resolve(rec, req)
+	r.Count("rest_resolve", fmt.Sprintf("id=%v time=%v status=%d", versionID != "", versionTime != "", rec.Code))
+	desc := map[string]interface{}{"kind": "rest", "versionId": versionID, "versionTime": versionTime, "status": rec.Code, "resolver_called": rr.hit,
+		"got_versionId": rr.opts.VersionID, "got_versionTime": rr.opts.VersionTime}
+	bad := ""
+	switch {
+	case versionID != "" && versionTime != "":
+		if rec.Code != 400 || rr.hit {
+			bad = "both parameters must be refused"
+		}
+	case !rr.hit || rec.Code != 200:
+		bad = "resolver not reached"
+	case rr.opts.VersionID != versionID || rr.opts.VersionTime != versionTime || rr.id != "did:sidetree:abc":
+		bad = "resolver received other options than the request carried"
+	}
+	if bad != "" {
+		r.Direct = append(r.Direct, out.Direct{Oracle: "rest_version_parameters_reach_the_resolver", What: bad, Case: desc})
+	}
 }
